@@ -292,6 +292,18 @@ func ProtoMonitor(sc *Scenario, w *World, x *Exec) []Violation {
 						required = cleanClose && st.newDeliv < tdStep
 					}
 					if required {
+						// the frame is sent by a short-lived thread (started by whoever finished
+						// the stream: the handler's goroutine or the receive loop); if any such
+						// sender was still alive when the tear-down began, its frame may have been
+						// lost legitimately
+						for _, th := range w.S.Threads {
+							last := th.Name[strings.LastIndexByte(th.Name, '/')+1:]
+							if (strings.Contains(last, ":finishStream#") || strings.Contains(last, ":serve#")) && (!th.Done || th.DoneStep < 0 || th.DoneStep >= tdStep) {
+								required = false
+							}
+						}
+					}
+					if required {
 						bad("exactly-one-close", "s2c:no-close-frame", fmt.Sprintf("%s: stream %d (script %q) ended, and every thread serving it finished, before the tunnel went down (step %d), but no close frame was emitted", ms.Name, st.id, st.script, tdStep))
 					}
 				}
